@@ -129,16 +129,19 @@ def forced_release(rng):
 TIMED_LOOKUP_HEAD = "net 2 1 new m master 0 0 ; new x mesh 1 7 ; x renew 1500 ; env faults D"
 
 
-def timed_lookup(rng):
+def timed_lookup(rng, odd=None):
     """-1 means "no answer within MESH_LOOKUP_TIMEOUT (135 ms)": the master's own reply is lost (every attempt of its
     transmission), and an answer for the asker is scripted to arrive clearly inside or clearly outside the window"""
-    inside = rng.random() < 0.5
+    inside = odd is not None or rng.random() < 0.5
     delay_ms = rng.choice([20, 50, 80]) if inside else rng.choice([240, 400])
     ty = rng.choice([196, 198])
     answer = rng.choice([0o12, 0o21, 77])
     call = f"x lookup_address {rng.choice([9, 200])}" if ty == 196 else f"x lookup_node_id {rng.choice([0o3, 0o14])}"
     # the first joiner that reaches the master directly gets address 0o5 (C16); the judge skips the case otherwise
-    reply = _frame(0, 0o5, rng.randrange(65536), ty, 0, answer.to_bytes(2, "little"))
+    body = answer.to_bytes(2, "little")
+    if odd is not None:       # answers of other sizes: one byte is taken as is, none means -1, extra bytes are ignored
+        body = [b"", bytes([rng.randrange(256)]), body + bytes([rng.randrange(256)]), bytes([rng.randrange(256), 0xFF])][odd]
+    reply = _frame(0, 0o5, rng.randrange(65536), ty, 0, body)
     ops = [f"env faults D{'L' * 200}", f"env arrive x {delay_ms * 1000000} 0 {reply}", call, "env faults -", "x update", "x read"]
     return TIMED_LOOKUP_HEAD[:TIMED_LOOKUP_HEAD.index(" ; env faults D")] + " ; " + " ; ".join(ops)
 
@@ -149,7 +152,8 @@ def judge_timed_lookup(l, io):
         return None
     delay = int(names[4].split()[3]) / 1e6
     reply = names[4].split()[-1]
-    answer = int(reply[18:20] + reply[16:18], 16)
+    body = bytes.fromhex(reply[16:])
+    answer = int.from_bytes(body[:2], "little", signed=True) if len(body) >= 2 else (body[0] if body else -1)
     res = parts[5].split(" ~ ")[0].split()[0]
     if res.startswith("exc="):
         return Finding(l, f"`{names[5]}` raised {res[4:]}", {})
@@ -205,7 +209,8 @@ class C17(PropCheck):
             cs.append((scripted_joiner(rng), "joiner-vs-scripted-responses"))
         for _ in range(6 if tier == "quick" else 20):
             cs.append((self._concrete(forced_release(rng)), "forced-release"))
-        cs += [(timed_lookup(rng), "timed-lookup") for _ in range(12 if tier == "quick" else 120)]
+        cs += [(timed_lookup(rng), "timed-lookup") for _ in range(8 if tier == "quick" else 120)]
+        cs += [(timed_lookup(rng, odd), "lookup-answer-sizes") for odd in range(4) for _ in range(1 if tier == "quick" else 10)]
         # a master-less mesh object with ID 0 counts as connected, without any traffic (RF24MeshNoMaster.check_connection)
         cs += [(f"net 2 1 new m master 0 0 ; new z mesh 1 0 ; z check_connection {a} {p} ; m lookup_address 0", "id0-node")
                for a in (1, 3) for p in "TF"]
